@@ -134,7 +134,7 @@ func prefixAssumptions(res *FuncResult, upto *Obl) []*Term {
 		}
 		if e.Assume != nil {
 			out = append(out, e.Assume)
-		} else if e.Obl != nil && e.Obl.Status != "trivial" {
+		} else if e.Obl != nil && e.Obl.Status != "trivial" && mayAssume(e.Obl) {
 			out = append(out, Implies(e.Obl.Guard, e.Obl.Goal))
 		}
 	}
@@ -160,7 +160,7 @@ func batchFormula(res *FuncResult, sel func(*Obl) bool) (*Term, int) {
 		if sel(o) {
 			n++
 			acc = And(g, Implies(g, acc))
-		} else {
+		} else if mayAssume(o) {
 			acc = Implies(g, acc)
 		}
 	}
@@ -253,4 +253,18 @@ func hasQuant(t *Term) bool {
 	}
 	quantMemo[t.id] = r
 	return r
+}
+
+// provenElsewhere: names of obligations in any committed baseline list.  An
+// obligation that is not being proved in this query may be assumed only if it
+// is proved by some check (its own property's); unproven ("attempted")
+// obligations are never assumed, so a failure that is not reported cannot make
+// later obligations vacuous.
+var provenElsewhere map[string]bool
+
+func mayAssume(o *Obl) bool {
+	if provenElsewhere == nil {
+		return true // sweep / baseline generation: classic assert-then-assume
+	}
+	return provenElsewhere[o.Name]
 }
